@@ -696,8 +696,10 @@ class StabilizerCode(metaclass=ABCMeta):
                 MethodType(self.get_logicals_z, self)
             )
 
+        # The undeformed operators are copied before they are relabelled: a
+        # code may hand out dictionaries it keeps, which must not be altered.
         def get_stabilizer(self, location):
-            stab = self._get_undeformed_stabilizer(location)
+            stab = dict(self._get_undeformed_stabilizer(location))
 
             for loc in stab.keys():
                 deformation = self.get_deformation(
@@ -708,7 +710,8 @@ class StabilizerCode(metaclass=ABCMeta):
             return stab
 
         def get_logicals_x(self):
-            logicals = self._get_undeformed_logicals_x()
+            logicals = [dict(logical)
+                        for logical in self._get_undeformed_logicals_x()]
 
             for logical in logicals:
                 for loc in logical.keys():
@@ -720,7 +723,8 @@ class StabilizerCode(metaclass=ABCMeta):
             return logicals
 
         def get_logicals_z(self):
-            logicals = self._get_undeformed_logicals_z()
+            logicals = [dict(logical)
+                        for logical in self._get_undeformed_logicals_z()]
 
             for logical in logicals:
                 for loc in logical.keys():
